@@ -207,7 +207,9 @@ pub fn pkt_of(e: &Value) -> Vec<u8> {
 pub fn drive(family: &str, thorough: bool, seed_val: u64, r: &mut Runner) {
     let mut d = D {
         r,
-        g: Rng::new(seed_val),
+        // a sharded run of a family that does not split its own work (only `tour` does) is the same family under
+        // another seed: thorough tiers use this to multiply the random families
+        g: Rng::new(seed_val.wrapping_add(crate::drivers_rx::shard_of().0 as u64 * 7919)),
         thorough,
     };
     match family {
